@@ -177,6 +177,8 @@ Assign == /\ IsEv("assign") /\ E.exc = ""
 Copy == /\ IsEv("copy") /\ E.exc = ""
         /\ Step(With(m, E.o, m[E.src]), With(kind, E.o, kind[E.src]))
 Snap == IsEv("snap") /\ Step(m, kind)
+(* assigned from a map of other key / value types (two bindings) and back from a copy of itself: as before, nothing left behind *)
+Xasg == IsEv("xasg") /\ E.exc = "" /\ E.n = 2 /\ Step(m, kind)
 Del == /\ IsEv("del")
        /\ Step(Without(m, E.o), Without(kind, E.o))
 
@@ -186,7 +188,7 @@ Bad == /\ IsEv("bad")
                   [] OTHER -> {"ValueError"})          \* (setrefuse: the value type's own Assign refuses the value)
 
 Next == \/ Reset \/ End \/ New \/ Set \/ RemOk \/ RemFail \/ GetOk \/ GetFail \/ Mem
-        \/ ResizeClear \/ ResizeReserve \/ ResizeFail \/ Assign \/ Copy \/ Snap \/ Del \/ Bad
+        \/ ResizeClear \/ ResizeReserve \/ ResizeFail \/ Assign \/ Copy \/ Snap \/ Xasg \/ Del \/ Bad
 
 Spec == Init /\ [][Next]_vars
 
